@@ -124,6 +124,8 @@ class TypeCase(AbsInt):
                 for k in e.keywords:
                     if k.arg == "message_type":
                         m = enum_member(k.value, self.enum)
+                        if m is None and self.mtype is not None and self.is_type_expr(k.value, st):
+                            m = self.mtype           # `Message(message_type=msg.message_type, ..)`: the kind being assumed
                         return f"new:{m or '?'}"
                 return "new:?"
             if recv is not None and name == "copy" and self.is_msg(recv, st):
@@ -147,12 +149,29 @@ class TypeCase(AbsInt):
                         return m == self.mtype
                     if isinstance(op, (ast.NotEq, ast.IsNot)):
                         return m != self.mtype
+                if isinstance(op, (ast.In, ast.NotIn)) and not isinstance(r, (ast.List, ast.Tuple, ast.Set)):
+                    r = self.constant_collection(r) or r        # `in Cls._NOTE_TYPES` / a module-level tuple of members
                 if isinstance(op, (ast.In, ast.NotIn)) and isinstance(r, (ast.List, ast.Tuple, ast.Set)):
                     ms = [enum_member(x, self.enum) for x in r.elts]
                     if all(x is not None for x in ms):
                         res = self.mtype in ms
                         return res if isinstance(op, ast.In) else not res
         return None
+
+    def constant_collection(self, e: ast.AST):
+        """The tuple / list / set display a class attribute (`Cls.NAME`, `self.NAME`) or a module-level name is bound to, once, else None."""
+        val = None
+        if isinstance(e, ast.Attribute) and isinstance(e.value, ast.Name):
+            cls = self.fi.cls if e.value.id in ("self", "cls") else e.value.id
+            ci = self.p.classes.get(cls) if cls else None
+            if ci is not None:
+                val = ci.class_attrs.get(e.attr)
+        elif isinstance(e, ast.Name):
+            mod = self.p.modules.get(self.fi.file)
+            if mod is not None:
+                defs = [a.value for a in mod.tree.body if isinstance(a, ast.Assign) and len(a.targets) == 1 and isinstance(a.targets[0], ast.Name) and a.targets[0].id == e.id]
+                val = defs[0] if len(defs) == 1 else None
+        return val if isinstance(val, (ast.Tuple, ast.List, ast.Set)) else None
 
     def truth(self, test: ast.expr, st: TCState) -> bool | None:
         if self.decide_hook is not None:
